@@ -1,4 +1,4 @@
-//! pie_run gen --family F --n N --seed S --out SCENARIOS.jsonl [--max-t 5 --max-r 4 --max-len 3 --steps 5 --wide 0.2 --chain -1 --fixed t,r,len]
+//! pie_run gen --family F --n N --seed S --out SCENARIOS.jsonl [--max-t 5 --max-r 4 --max-len 3 --steps 5 --wide 0.2 --chain -1 --fixed t,r,len --retry 0]
 //! pie_run run --scenarios FILE --out TRACE.ndjson [--repeat K]
 //!   executes scenarios (JSON lines) against the real library; with --repeat K each scenario is executed K times
 //!   on fresh instances and the K traces are written to TRACE.ndjson, TRACE.ndjson.2, ... (determinism check).
@@ -31,9 +31,21 @@ fn main() {
       };
       let n: usize = get("n", "10").parse().unwrap();
       let seed: u64 = get("seed", "1").parse().unwrap();
+      let retry = get("retry", "0") != "0";
       let mut w = std::io::BufWriter::new(std::fs::File::create(get("out", "scenarios.jsonl")).expect("create out"));
       for idx in 0..n {
-        let s = generate(seed, idx, &cfg);
+        let mut s = generate(seed, idx, &cfg);
+        if retry {
+          // same-session retry profile (post-processing only: the generator's random stream is untouched): the caller
+          // keeps the Session after a caught top-down panic; every pure-require session also retries its first root
+          s.retry = true;
+          s.id = format!("{}-retry", s.id);
+          for st in s.hist.iter_mut() {
+            if let pie_verif_harness::model::Step::Session { acts } = st {
+              if acts.len() >= 1 && acts.iter().all(|a| matches!(a, pie_verif_harness::model::Act::Req { .. })) { let a = acts[0].clone(); acts.push(a); }
+            }
+          }
+        }
         w.write_all(serde_json::to_string(&s).unwrap().as_bytes()).unwrap();
         w.write_all(b"\n").unwrap();
       }
